@@ -97,10 +97,14 @@ def observe(c):
             tilt = (mrad(tx[1], Z), abtem.distributions.from_values(np.array([mrad(b, Z) for b in ty])))
             table = {(j,): (tx[1], ty[j]) for j in range(3)}
             lead = (3,)
-        elif form.startswith("sequence_"):
+        elif form.startswith("sequence_") or form == "propagator_reused":
             tilt = "sequence"
             table = {(): (tx[0], ty[0])}
             lead = ()
+        elif form == "base_plus_two_axes":
+            tilt = "sequence"
+            table = {(i, j): (tx[2] + tx[i], ty[2] + ty[j]) for i in range(2) for j in range(2)}
+            lead = (2, 2)
         else:
             raise Machinery(form)
         vac = vacuum(grid, dz)
@@ -113,6 +117,18 @@ def observe(c):
                     w = BeamTilt2D(0.0, Y).apply(probe(grid, (X, 0.0)).build(scan=scan, lazy=lazy))
                 elif form == "sequence_x_then_y":
                     w = BeamTilt((0.0, Y)).apply(BeamTilt((X, 0.0)).apply(probe(grid, (0.0, 0.0)).build(scan=scan, lazy=lazy)))
+                elif form == "base_plus_two_axes":
+                    base = probe(grid, (mrad(tx[2], Z), mrad(ty[2], Z))).build(scan=scan, lazy=lazy)
+                    w = BeamTilt2D(tilt_x=[mrad(a, Z) for a in tx[:2]], tilt_y=[mrad(b, Z) for b in ty[:2]]).apply(base)
+                elif form == "propagator_reused":
+                    from abtem.multislice import FresnelPropagator
+                    p = FresnelPropagator()
+                    w = probe(grid, (X, Y)).build(scan=scan, lazy=False)
+                    served = probe(grid, (-0.5 * X + 1.0, 2.0 * Y - 3.0)).build(scan=scan, lazy=False)
+                    for d in dz:
+                        p.propagate(served, float(d))       # the object has just served another tilt
+                        w = p.propagate(w, float(d))
+                    return np.asarray(w.array)
                 else:
                     w = BeamTilt((0.25 * X, Y)).apply(probe(grid, (0.75 * X, 0.0)).build(scan=scan, lazy=lazy))
                     w = BeamTilt2D(0.0, 0.0).apply(w)
